@@ -162,7 +162,13 @@ val op_dirty : graph -> nat list -> nat -> plan -> plan option
 
 val op_ready : graph -> nat -> plan -> plan option
 
+val op_ready_try : graph -> nat -> plan -> plan
+
+val ready_pre : graph -> plan -> nat -> bool
+
 val op_rescan : graph -> nat -> plan -> plan
+
+val rescan_round : graph -> nat list -> nat list -> plan -> plan
 
 val op_add : graph -> (nat * bool) -> plan -> plan option
 
